@@ -211,7 +211,7 @@ pub open spec fn cie_model(r: RView, is_eh: bool, dflt_asz: u8, b: PeBases, sec_
     let rar = if version == 1 { r.at(q3 as int) as nat } else { r.uleb(q3 as int) };
     let q4 = if version == 1 { q3 + 1 } else { q3 + r.leb_len(q3 as int) };
     if r.len < 1 || !(version == 1 || version == 3 || version == 4) || q0 > r.len || q4 > r.len
-        || (sizes && (!valid_address_size(r.at(q0 as int)) || r.at(q0 + 1) != 0)) {
+        || (sizes && (!valid_address_size(r.at(q0 as int)) || r.at(q0 as int + 1) != 0)) {
         None
     } else if n == 0 {
         Some(CieM { version: version, asz: asz, caf: caf, daf: daf, rar: rar, aug: None, instr: rv_adv(r, q4) })
